@@ -197,6 +197,18 @@ pub fn run(out: &mut Out, thorough: bool, seed: u64, _extra: &[String]) {
               forms(out, &format!("mod_switch_to_next@{}", depth), &cls, &c, Some(&c2), &|a| ev.mod_switch_to_next_new(a), &|a, d| ev.mod_switch_to_next(a, d), &|a| ev.mod_switch_to_next_inplace(a));
               forms(out, &format!("negate@{}", depth), &cls, &c, Some(&c2), &|a| ev.negate_new(a), &|a, d| ev.negate(a, d), &|a| ev.negate_inplace(a));
               forms(out, &format!("add_plain@{}", depth), &cls, &c, Some(&c2), &|a| ev.add_plain_new(a, &plain_at(&s, &plain, a)), &|a, d| ev.add_plain(a, &plain_at(&s, &plain, a), d), &|a| ev.add_plain_inplace(a, &plain_at(&s, &plain, a)));
+              // binary forms on operands of DIFFERENT sizes and (BGV) different correction factors, in both operand orders:
+              // a switched ciphertext (factor c) against its own unrelinearised square (size 3, factor c^2)
+              if let Ok(sq) = std::panic::catch_unwind(std::panic::AssertUnwindSafe(|| ev.multiply_new(&c, &c))) {
+                  forms(out, &format!("add-2+3@{}", depth), &cls, &c, Some(&sq), &|a| ev.add_new(a, &sq), &|a, d| ev.add(a, &sq, d), &|a| ev.add_inplace(a, &sq));
+                  forms(out, &format!("add-3+2@{}", depth), &cls, &sq, Some(&c), &|a| ev.add_new(a, &c), &|a, d| ev.add(a, &c, d), &|a| ev.add_inplace(a, &c));
+                  forms(out, &format!("sub-2-3@{}", depth), &cls, &c, Some(&sq), &|a| ev.sub_new(a, &sq), &|a, d| ev.sub(a, &sq, d), &|a| ev.sub_inplace(a, &sq));
+                  forms(out, &format!("sub-3-2@{}", depth), &cls, &sq, Some(&c), &|a| ev.sub_new(a, &c), &|a, d| ev.sub(a, &c, d), &|a| ev.sub_inplace(a, &c));
+                  if scheme != SchemeType::CKKS {
+                      forms(out, &format!("multiply-2x3@{}", depth), &cls, &c, Some(&sq), &|a| ev.multiply_new(a, &sq), &|a, d| ev.multiply(a, &sq, d), &|a| ev.multiply_inplace(a, &sq));
+                      forms(out, &format!("multiply-3x2@{}", depth), &cls, &sq, Some(&c), &|a| ev.multiply_new(a, &c), &|a, d| ev.multiply(a, &c, d), &|a| ev.multiply_inplace(a, &c));
+                  }
+              }
               valid_line(out, &s, &c, "r", &format!("{}-switched{}", sn, depth));
               depth += 1;
           } }
